@@ -773,6 +773,9 @@ class Tr:
                     defaults.append('    ' * (ind + 1) + '%s = None' % an)
             defaults.append('    ' * (ind + 1) + '_sx_cattrs_ = %r' % {a: v[0] for a, v in ci.attrs.items()})
         s.out[mark + 1:mark + 1] = defaults
+        if any(l.lstrip().startswith('def __richcmp__(') for l in s.out[mark:]):
+            for nm, op in (('__lt__', 0), ('__le__', 1), ('__eq__', 2), ('__ne__', 3), ('__gt__', 4), ('__ge__', 5)):
+                s.emit(ind + 1, 'def %s(self, other): return self.__richcmp__(other, %d)' % (nm, op))
         s.scopes.pop()
         s.cls, s.cls_depth = saved
 
